@@ -123,6 +123,8 @@ def generate(rs: int, tier: str, index: int) -> dict:
         step["a"], step["b"] = a, _poly(ch.sub("b"), d2, names=bnames, shape=bshape)
         step["e"] = ch.choice([0, 1, 2, 3])
         step["scalar"] = ch.choice([0, 1, 2])
+        if ch.sub("alias").chance(0.1):
+            step["alias"] = True
     elif kind == "shape":
         step["fn"] = ch.choice(["getitem", "reshape", "transpose", "concatenate", "where", "diff", "ediff1d", "getitem_mask", "stack", "repeat", "tile", "expand_dims", "sum", "cumsum"])
         shape = ch.choice([(2,), (3,), (2, 2), (2, 3)])
@@ -305,6 +307,24 @@ class Runner:
         if k == "arith":
             op = step["op"]
             a, b = step["a"], step["b"]
+            if step.get("alias") and op in ("add", "sub", "mul"):
+                # the very same object on both sides
+                ma = _model(a)
+                shape = tuple(a["shape"])
+                if op == "mul":
+                    exp = Expect(d1, shape, _strip(_m_mul(ma, ma, d1, shape)))
+                else:
+                    uf = numpy.add if op == "add" else numpy.subtract
+                    try:
+                        exp = Expect(uf(numpy.zeros((), d1), numpy.zeros((), d1)).dtype, shape, _strip(_m_addsub(ma, ma, uf, d1, d1, shape)))
+                    except TypeError:
+                        exp = Expect(raises=True)
+
+                def thunk_alias():
+                    x = self.build(a)
+                    return x + x if op == "add" else x - x if op == "sub" else x * x
+
+                return thunk_alias, exp, op, {"d1": step["d1"]}
             ma, mb = _model(a), _model(b)
             shape = numpy.broadcast_shapes(tuple(a["shape"]), tuple(b["shape"]))
             if op in ("add", "sub"):
